@@ -29,9 +29,15 @@ func (r *rec) UpdateDesc(d *bridgedesc.Target) {
 	if fr, ok := d.FileResolver.(interface {
 		FindDescriptorByName(protoreflect.FullName) (protoreflect.Descriptor, error)
 	}); ok {
-		for v := 0; v < 8; v++ {
+		for v := 0; v < 4; v++ {
 			if _, err := fr.FindDescriptorByName(protoreflect.FullName(fmt.Sprintf("pkg.SaltV%d", v))); err == nil {
 				ver = v
+			}
+		}
+		// the dependency's own version (a change confined to an imported file is a contract change too)
+		for d := 0; d < 2; d++ {
+			if _, err := fr.FindDescriptorByName(protoreflect.FullName(fmt.Sprintf("dep.SaltD%d", d))); err == nil {
+				ver += 10 * d
 			}
 		}
 	}
@@ -48,11 +54,13 @@ func (r *rec) ReportError(error) {
 	r.mu.Unlock()
 }
 
-// contract version v (0..3): descriptor bytes differ by the salt; versions >= 2 also list a second service
-func setContract(s *vrefl.Server, v int) int {
+// contract c (0..7): api version v = c%4 (descriptor bytes differ by the salt; versions >= 2 also list a second service),
+// dependency version d = c/4 (only dep.proto differs)
+func setContract(s *vrefl.Server, c int) int {
+	v, d := c%4, c/4
 	api := vrefl.File{Name: "api.proto", Package: "pkg", Deps: []string{"dep.proto"}, Messages: []string{"Req", "Resp"}, Salt: fmt.Sprintf("V%d", v%2*0+v),
 		Services: []vrefl.Service{{Name: "A", Methods: []vrefl.Method{{Name: "Get", In: "pkg.Req", Out: "pkg.Resp"}}}, {Name: "B", Methods: []vrefl.Method{{Name: "Do", In: "pkg.Req", Out: "pkg.Resp", SS: true}}}}}
-	dep := vrefl.File{Name: "dep.proto", Package: "dep", Messages: []string{"D"}}
+	dep := vrefl.File{Name: "dep.proto", Package: "dep", Messages: []string{"D"}, Salt: fmt.Sprintf("D%d", d)}
 	s.Files = map[string]vrefl.File{"api.proto": api, "dep.proto": dep}
 	s.Listed = []string{"pkg.A", "grpc.reflection.v1.ServerReflection"}
 	n := 1
@@ -60,7 +68,7 @@ func setContract(s *vrefl.Server, v int) int {
 		s.Listed = append(s.Listed, "pkg.B")
 		n = 2
 	}
-	return v*10 + n
+	return (v+10*d)*10 + n
 }
 
 func waitStreams(s *vrefl.Server, want int) bool {
@@ -81,8 +89,8 @@ func seqPart(w *vc.Writer, r *vc.Rand) {
 	n := vc.Scale(120, 5000)
 	for h := 0; h < n; h++ {
 		rr := r.Fork()
-		srv := &vrefl.Server{V1: true, Alpha: true, FailStep: -1, Policy: rr.Intn(5)}
-		cur := rr.Intn(4)
+		srv := &vrefl.Server{V1: true, Alpha: true, FailStep: -1, Policy: []int{0, 1, 2, 3, 4, 7, 1, 7}[rr.Intn(8)]}
+		cur := rr.Intn(8)
 		polls := vc.L{}
 		// configure the FIRST poll before the resolver starts (Build polls at once)
 		type pcfg struct {
@@ -101,7 +109,9 @@ func seqPart(w *vc.Writer, r *vc.Rand) {
 				p.v1, p.alpha = false, false
 			}
 			if rr.Chance(30) {
-				cur = rr.Intn(4)
+				cur = rr.Intn(8)
+			} else if rr.Chance(15) {
+				cur ^= 4 // only the dependency changes
 			}
 			p.fail = rr.Chance(25)
 			p.contract = cur
